@@ -694,6 +694,13 @@ class Interp:
             raise Unsupported(node, f'operator {type(op).__name__}')
         if isinstance(a, (list, tuple, dict)) and _contains_top(a) and not isinstance(op, (ast.Add, ast.Mult)):
             return TOP
+        if isinstance(op, (ast.BitAnd, ast.BitOr, ast.BitXor)) and (hasattr(a, 'pqv_truth') or hasattr(b, 'pqv_truth')) \
+                and all(isinstance(x, bool) or hasattr(x, 'pqv_truth') for x in (a, b)) \
+                and not hasattr(a, '__and__') and not hasattr(b, '__and__'):
+            ta, tb = truth(a), truth(b)
+            if ta is None or tb is None:
+                return TOP
+            return {ast.BitAnd: ta and tb, ast.BitOr: ta or tb, ast.BitXor: ta != tb}[type(op)]
         try:
             return f(a, b)
         except ZeroDivisionError:
